@@ -583,6 +583,27 @@ fn match_step(
     for c in order {
         let exps: Vec<&Exp> = out.exp.iter().filter(|e| e.conn == c).collect();
         let mut matched = vec![false; exps.len()];
+        if out.unordered_teardown {
+            // everything up to the end is consumed; required messages must be among it
+            for m in &obs[c][cur[c]..] {
+                if let Some(i) = (0..exps.len()).find(|&i| !matched[i] && !exps[i].optional && exps[i].alts.iter().any(|a| msg_eq(a, m))) {
+                    matched[i] = true;
+                }
+            }
+            cur[c] = obs[c].len();
+            if !lenient.contains(&c) {
+                for (i, e) in exps.iter().enumerate() {
+                    if !matched[i] && !e.optional {
+                        return Err(Mismatch {
+                            what: "missing-or-different-delivery".into(),
+                            kind: kind_name(&e.alts[0]),
+                            detail: format!("expected {} during the teardown of all connections", exp_str(e)),
+                        });
+                    }
+                }
+            }
+            continue;
+        }
         loop {
             if cur[c] >= obs[c].len() {
                 break;
@@ -610,16 +631,36 @@ fn match_step(
                     }
                 }
             });
+            // a serial chosen by the broker: try every synthetic serial handed out to this
+            // connection in this step (several calls / queries may start in one step)
             let mut tent_s: Option<(usize, u8, u32)> = None;
+            let mut hit: Option<usize> = None;
+            let mut serial_cands: Vec<Option<usize>> = vec![None];
+            let mut space_real: Option<(u8, u32)> = None;
             if let Some((space, s)) = broker_serial_out(&mut msg) {
                 if let Some(syn) = bind.s_r2s.get(&(c, space, *s)) {
                     *s = *syn;
-                } else if let Some(i) = fresh_serials.iter().position(|(fc, _, b)| *fc == c && !*b) {
-                    tent_s = Some((i, space, *s));
-                    *s = fresh_serials[i].1;
+                } else {
+                    space_real = Some((space, *s));
+                    serial_cands = (0..fresh_serials.len()).filter(|&i| fresh_serials[i].0 == c && !fresh_serials[i].2).map(Some).collect();
+                    if serial_cands.is_empty() {
+                        serial_cands = vec![None];
+                    }
                 }
             }
-            let hit = (0..exps.len()).find(|&i| !matched[i] && exps[i].alts.iter().any(|a| msg_eq(a, &msg)));
+            for cand in serial_cands {
+                if let (Some(i), Some((space, real))) = (cand, space_real) {
+                    if let Some((_, s)) = broker_serial_out(&mut msg) {
+                        *s = fresh_serials[i].1;
+                    }
+                    tent_s = Some((i, space, real));
+                }
+                hit = (0..exps.len()).find(|&i| !matched[i] && exps[i].alts.iter().any(|a| msg_eq(a, &msg)));
+                if hit.is_some() {
+                    break;
+                }
+                tent_s = None;
+            }
             if let Some(i) = hit {
                 matched[i] = true;
                 for (fi, real) in tent_c {
